@@ -138,7 +138,7 @@ def fnum(x):
     return float(x)
 
 
-def run_session(case, data_dir=None, data_source=None, keep=False):
+def run_session(case, data_dir=None, data_source=None, keep=False, universe=None):
     """Returns a JSON-able record of one real backtest. `data_source`: reuse an existing CSVDailyBarDataSource."""
     own_dir = None
     if data_source is None:
@@ -149,7 +149,7 @@ def run_session(case, data_dir=None, data_source=None, keep=False):
                                             csv_symbols=sorted(case['market']))
     rec = dict(construct='ok', err=None, txns=[], allocs_tap=[], sizer=[], appends=[], updates=[], closes=[])
     try:
-        uni = make_universe(case['universe'])
+        uni = universe if universe is not None else make_universe(case['universe'])
         clock = {'now': None}
         dh = RecordingHandler(BacktestDataHandler(uni, data_sources=[data_source]), clock)
         signals = None
